@@ -42,7 +42,7 @@ def strategy_(draw):
     kind = draw(st.sampled_from(["reservoir", "reservoir", "comparison", "transform"]))
     if kind == "reservoir":
         c = draw(flowcase.sim_case(nx_max=40, max_steps=120, schedules=False, with_library=False, time_kinds=("uniform", "quadratic", "geometric", "random")))
-        c.update({"kind": kind, "every_frac": draw(st.floats(0.0, 1.1)), "rescale": draw(st.booleans()), "change_ticks": draw(st.booleans()), "own_axes": draw(st.booleans())})
+        c.update({"kind": kind, "every_frac": draw(st.floats(0.0, 1.1)), "rescale": draw(st.booleans()), "change_ticks": draw(st.booleans()), "own_axes": draw(st.booleans()), "pre_state": draw(st.sampled_from(["fresh", "fresh", "after-density-recovery", "after-interpolator"]))})
         return c
     if kind == "transform":
         n = draw(st.integers(1, 30))
@@ -172,6 +172,20 @@ def check_case(case) -> Result:
                         break
             # ---- recovery factor ------------------------------------------------------------------------
             rf = np.asarray(lib("recovery_factor", r.res.recovery_factor), float).copy()
+            # the figures show the simulated data whatever recovery calls the caller made before plotting (the
+            # object caches the most recent recovery, possibly the in-place one; the figures must not pick that up)
+            pre = case.get("pre_state", "fresh")
+            res.labels["pre_state"] = pre
+
+            def _pre():
+                if pre == "after-density-recovery" and case["cls"] != "ideal":
+                    lib("recovery_factor(density=True)", r.res.recovery_factor, density=True)
+                elif pre == "after-interpolator":
+                    if case["cls"] != "ideal":
+                        lib("recovery_factor(density=True)", r.res.recovery_factor, density=True)
+                    lib("recovery_factor_interpolator", r.res.recovery_factor_interpolator)
+
+            _pre()
             ax2 = lib("plot_recovery_factor", P.plot_recovery_factor, r.res, ax=plt.subplots()[1] if case["own_axes"] else None, change_ticks=case["change_ticks"])
             l2 = _lines(ax2)
             if len(l2) != 1 or not _same(l2[0][0], t) or not _same(l2[0][1], rf):
@@ -179,6 +193,7 @@ def check_case(case) -> Result:
             if ax2.get_xscale() != "squareroot":
                 res.bad("C20/recovery-against-scaled-time", f"x scale of the recovery plot is {ax2.get_xscale()!r}")
             # ---- recovery rate --------------------------------------------------------------------------
+            _pre()
             ax3 = lib("plot_recovery_rate", P.plot_recovery_rate, r.res, ax=plt.subplots()[1] if case["own_axes"] else None, change_ticks=case["change_ticks"])
             l3 = _lines(ax3)
             if len(l3) != 1 or not _same(l3[0][0], t):
